@@ -111,8 +111,19 @@ def gen_blocks_request(ch, cfg, ancestor=None):
     return req, exp, info
 
 
+LINK_FAULTS = ["timeout_after", "timeout_before", "read_err_after", "read_err_before", "write_err"]
+
+
 def run_one(ch, cfg):
-    w = World(ch)
+    arm = {}
+
+    def fault_fn(idx, apdu):
+        if arm.get("at") == idx:
+            arm["fired"] = arm["kind"]
+            return arm["kind"]
+        return None
+    w = World(ch, fault_fn=fault_fn)
+    w.arm = arm
     w.bring_up()
     # history: one manager lifetime serves 1..3 requests (advance and ancestor updates mixed); each is
     # judged on its own
@@ -128,6 +139,7 @@ def run_one(ch, cfg):
     out["digest"] = w.log.digest()
     out["sim_s"] = w.clock.elapsed
     out["probes"] = dict(w.device.probes)
+    out["faults"] = dict(w.link.stats.faults)
     out["probes"]["requests_%d" % nreq] = 1
     return out
 
@@ -140,7 +152,19 @@ def _one_request(w, ch, cfg):
     stop, brothers, blocks = info["stop"], info["brothers"], info["blocks"]
     dev.expect = exp
     n_before = len(dev.apdus)
+    # one request in five meets a link fault at one of its exchanges (an answer that comes too late is
+    # not a refused chunk: whatever the manager does next, the device must never be handed other
+    # bytes than the client's, and success is claimed only if the device reported it)
+    arm = w.arm
+    arm.pop("fired", None)
+    arm.pop("at", None)
+    if ch.draw(5, "link-fault") == 1 and not arm.get("used"):      # at most one per lifetime
+        arm["used"] = True
+        arm["at"] = w.link.index + ch.draw(40, "link-fault.at")
+        arm["kind"] = LINK_FAULTS[ch.draw(len(LINK_FAULTS), "link-fault.kind")]
     rep, exc = w.request(req)
+    fired = arm.get("fired")
+    arm.pop("at", None)
     viol = list(dev.violations)
     del dev.violations[:]
     if exc is not None:
@@ -151,13 +175,19 @@ def _one_request(w, ch, cfg):
     else:
         code = rep["errorcode"]
         want = {"success": 0, "partial": 1}.get(result)
-        if want is None:
+        if fired:
+            if code in (0, 1) and code != want:
+                viol.append(("reply/false-success", "link fault %s, device reported %s but errorcode=%d"
+                             % (fired, result, code)))
+            elif code not in (0, 1, -905):
+                viol.append(("reply/code-after-link-fault", "link fault %s -> errorcode %d" % (fired, code)))
+        elif want is None:
             if not viol:
                 viol.append(("reply/no-result", "device never reported an outcome; reply %r"
                              % (rep,)))
         elif code != want:
             viol.append(("reply/code", "device reported %s but errorcode=%d" % (result, code)))
-    if exp.get("seen_count") is None and not viol:
+    if exp.get("seen_count") is None and not viol and not fired:
         viol.append(("blocks/no-init", "no INIT reached the device"))
     state = ("anc" if ancestor else "adv", nblocks, tuple(sorted(nfset)), nbro_total,
              tuple(ask or ()), stopclass, tiny,
